@@ -100,6 +100,11 @@ func runDrainScenario(sc drainScenario, keepLog bool) drainResult {
 			case "order":
 				for range c.Coldest() {
 				}
+			case "orderbreak":
+				// the consumer leaves the iteration early: the unlock on that path must reschedule as well
+				for range c.Hottest() {
+					break
+				}
 			case "getmax":
 				c.GetMaximum()
 			case "cleanup":
